@@ -14,32 +14,18 @@ ASSUMPTIONS = [
     "the synchronous driver is validated against the public-API driver on all short histories (conformance scenarios) "
     "and on every reported violation",
 ]
-SPEC = {'conf_quick': [('K9', 3)],
- 'conf_thorough': [('K9', 4), ('K11', 3)],
- 'quick': [('K0', 'std', 3),
-           ('K9', 'full', 3),
-           ('K0', 'liq', 4),
-           ('K9', 'liq', 4),
-           ('K14', 'liq', 4),
-           ('K11', 'std', 3),
-           ('K6', 'small', 3)],
- 'thorough': [('K0', 'std', 4),
-              ('K1', 'std', 4),
-              ('K4', 'std', 4),
-              ('K9', 'std', 4),
-              ('K10', 'std', 4),
-              ('K11', 'std', 4),
-              ('K14', 'std', 4),
+SPEC = {
+    'quick': [('K0', 'std', 3),
               ('K9', 'full', 3),
-              ('K0', 'full', 3),
-              ('K7', 'std', 3),
-              ('K6', 'std', 3),
-              ('K11', 'small', 5),
-              ('K0', 'liq', 5),
-              ('K9', 'liq', 5),
-              ('K14', 'liq', 5),
-              ('K11', 'liq', 5),
-              ('lasso', 'K9', 'liq', 3, 8)]}
+              ('K0', 'liq', 4),
+              ('K9', 'liq', 4),
+              ('K14', 'liq', 4),
+              ('K11', 'std', 3),
+              ('K6', 'small', 3)],
+    'conf_quick': [('K9', 3)],
+    'conf_thorough': [('K9', 3), ('K11', 3)],
+}
+SPEC['thorough'] = X.thorough_spec(SPEC['quick'], [('K14', 'lend'), ('K1', 'lend')])
 BOUNDS = {t: dict(spec=SPEC[t]) for t in ("quick", "thorough")}
 EXPLANATION = ("explicit-state BFS over operation histories with state de-duplication; every transition executes the "
                "real exchange; traces_validated_against_impl = histories executed through BOTH drivers (sync and "
